@@ -34,6 +34,13 @@ import (
 //	0100    -> 0 0 1 0 T    0001 -> 1 0 0 0 T    1100 -> 0 0 1 1 T
 //	aa      -> a a T        01aa -> a a 1 0 T    02aa -> a a 2 0 T  01aaaa -> a a a a 1 0 T
 var keysQuick = []string{"", "00", "01", "0100", "1100", "aa", "01aa", "02aa"}
+
+// keysNested: an extension over a branch whose two children are a leaf and another extension
+// (a a -> branch{1: leaf, 2: ext(2 2) -> branch{3: leaf, 4: leaf}}); deleting the leaf on a
+// collapsed / recreated trie merges two extensions (added after the independent seed C01-1).
+//
+//	01aa -> a a 1 0 T    3222aa -> a a 2 2 2 3 T    4222aa -> a a 2 2 2 4 T
+var keysNested = []string{"01aa", "3222aa", "4222aa", "aa"}
 var keysAll = []string{"", "00", "01", "10", "11", "0100", "0001", "1100", "aa", "01aa", "02aa", "01aaaa"}
 
 var (
